@@ -26,4 +26,11 @@ mk edi_unescape_inplace C07 extensions/omniv21/fileformat/edi/reader.go 's/strs.
 mk json_array_flag   C08 idr/marshal2.go 's/if ctx.useJSONType \&\& IsJSON(n) {/if ctx.useJSONType \&\& IsJSONArr(n) {/'
 mk csv2_comma_byte   C06 extensions/omniv21/fileformat/flatfile/csv/reader.go 's/csv.Comma = delim\[0\]/csv.Comma = delim[len(delim)-1]/'
 mk reset_keeps_data  C12 idr/node.go 's/n.Data = ""/n.Data = n.Data/'
+python3 - <<'PY'
+p='extensions/omniv21/transform/validate.go'; s=open(p).read()
+s=s.replace("""	// `children` stays in declaration order: parseArray emits the array elements by walking it.
+	return nil""","""	sort.Slice(decl.children, func(i, j int) bool { return decl.children[i].fqdn < decl.children[j].fqdn })
+	return nil""",1); open(p,'w').write(s)
+PY
+git diff > /verif/selftest/array_children_sorted.diff; git checkout -- .; echo "array_children_sorted C02 extensions/omniv21/transform/validate.go" >> /verif/selftest/INDEX
 echo "selftest corpus: $(wc -l < /verif/selftest/INDEX) edits"
